@@ -38,7 +38,8 @@ CONSTANT SkipsUnregistered   \* as-built switch for defect D14 (TRUE = what the 
 
 Kinds      == {"na", "ok", "nilp", "rej"}
 AuthzModes == {"none", "allow", "deny", "denyStatus"}
-Variants   == {"good", "query", "ctype", "accept"}   \* what else is wrong with the request
+Variants   == {"good", "query", "ctype", "accept", "formvalid", "forminvalid"}   \* what else is wrong with the request
+   \* (form*: an urlencoded body - not consumed by the operation - with fields named like the query api keys)
 
 Avail(c, s)    == \E i \in DOMAIN c.avail : c.avail[i] = s
 IsAnon(alt)    == alt.schemes = <<>>
@@ -253,7 +254,7 @@ Authorize(c, e, mode) ==
 \* and the handler, for a request that is otherwise fine or broken in one aspect
 PipelineErr(v) == CASE v = "good"   -> HandlerErr
                     [] v = "query"  -> [code |-> 602, msg |-> "required"]
-                    [] v = "ctype"  -> [code |-> 415, msg |-> "unsupported media type"]
+                    [] v \in {"ctype", "formvalid", "forminvalid"} -> [code |-> 415, msg |-> "unsupported media type"]
                     [] v = "accept" -> [code |-> 406, msg |-> "not acceptable"]
 Pipeline(c, e, v) ==
   LET secured == ~NoSecurity(c)
